@@ -43,7 +43,12 @@ def main():
         notes="Every check: regenerate tables from /repo, lake build the property module (kernel), audit axioms "
               "(propext, Classical.choice, Quot.sound only; no sorry/native_decide), run the correspondence and the "
               "oracle on the real code, write evidence/<id>.json. Known findings: known_findings.txt. "
-              "Seeded mutations: seeded/, regress/ (tools/eval_seeds.py).",
+              "Seeded mutations: seeded/ (280 independently seeded changes in six rounds, first-attempt results per "
+              "round in seeded/RESULTS_round*_first.txt, final results in seeded/RESULTS.txt), regress/ (reverse patches "
+              "of the fix commits), refactors/ (behaviour-preserving rewrites that must stay green): tools/eval_seeds.py, "
+              "tools/eval_refactors.py, tools/mutants.py. When polyply/src or polyply/data differ from fingerprints.json "
+              "the quick tier widens its search (budgets x4, DESIGN 2.3). Exit 2 / 137 = harness outcome (time limit), "
+              "never a verdict.",
         not_applicable=not_applicable)
     with open(os.path.join(VERIF, "MANIFEST.json"), "w") as handle:
         json.dump(manifest, handle, indent=1)
